@@ -83,7 +83,7 @@ def _writers(fn, du, w, handles, own_table):
     elif fn.type_of(recv) == T.DOCMODEL and m in ("add", "insert", "insert_after") and c.args:
       out.append((n.id, "add", H.handle_table_of(fn, c.args[0], w, handles), c))
     elif fn.type_of(recv) == T.DOCMODEL and m in ("update", "remove") and c.args:
-      out.append((n.id, m, H.record_table_of(fn, c.args[0], w, handles), c))
+      out.append((n.id, m, H.record_table_of(fn, c.args[0], w, handles, own_table=own_table), c))
   return out
 
 
